@@ -760,9 +760,20 @@ pub fn cmpwi(
     let detail = details(instruction)?;
 
     // get operands
-    let cr = get_register(detail.operands[0].reg())?.scalar();
-    let lhs = get_register(detail.operands[1].reg())?.expression();
-    let rhs = expr_const(detail.operands[2].imm() as u64, 32);
+    // the condition register field is omitted when it is cr0
+    let (cr, lhs, rhs) = if detail.op_count == 2 {
+        (
+            scalar("cr0", 4),
+            get_register(detail.operands[0].reg())?.expression(),
+            expr_const(detail.operands[1].imm() as u64, 32),
+        )
+    } else {
+        (
+            get_register(detail.operands[0].reg())?.scalar(),
+            get_register(detail.operands[1].reg())?.expression(),
+            expr_const(detail.operands[2].imm() as u64, 32),
+        )
+    };
 
     let block_index = {
         let block = control_flow_graph.new_block()?;
@@ -785,9 +796,20 @@ pub fn cmplwi(
     let detail = details(instruction)?;
 
     // get operands
-    let cr = get_register(detail.operands[0].reg())?.scalar();
-    let lhs = get_register(detail.operands[1].reg())?.expression();
-    let rhs = expr_const(detail.operands[2].imm() as u64, 32);
+    // the condition register field is omitted when it is cr0
+    let (cr, lhs, rhs) = if detail.op_count == 2 {
+        (
+            scalar("cr0", 4),
+            get_register(detail.operands[0].reg())?.expression(),
+            expr_const(detail.operands[1].imm() as u64, 32),
+        )
+    } else {
+        (
+            get_register(detail.operands[0].reg())?.scalar(),
+            get_register(detail.operands[1].reg())?.expression(),
+            expr_const(detail.operands[2].imm() as u64, 32),
+        )
+    };
 
     let block_index = {
         let block = control_flow_graph.new_block()?;
